@@ -61,13 +61,18 @@ type caseT struct {
 	// unknown mode; "failD" / "failC" / "failP" / "failN" a stub server whose Run returns at once an error that
 	// wraps context.DeadlineExceeded / wraps context.Canceled / is plain / is nil, while the manager's context is alive
 	failKind string
-	invs     []invT
+	// datapoints sent as soon as the extension has subscribed to telemetry (inside the start-up window)
+	early int
+	invs  []invT
 }
 
 func renderCase(c *caseT) string {
 	items := []string{"cfg ok"}
 	if !c.initOK {
 		items[0] = "cfg " + c.failKind
+	}
+	if c.early > 0 {
+		items = append(items, fmt.Sprintf("early %d", c.early))
 	}
 	for _, iv := range c.invs {
 		items = append(items, fmt.Sprintf("inv %d %s %d %d %d %d %d %d", iv.ndp, iv.outcome, iv.lat, iv.pre, iv.post, iv.nb, iv.na, iv.late))
@@ -88,6 +93,14 @@ func parseCase(line string) (*caseT, error) {
 	}
 	for _, it := range parts[1:] {
 		if len(it) == 0 {
+			continue
+		}
+		if len(it) == 2 && it[0] == "early" {
+			v, err := strconv.Atoi(it[1])
+			if err != nil || v < 0 {
+				return nil, fmt.Errorf("bad early")
+			}
+			c.early += v
 			continue
 		}
 		if len(it) != 9 || it[0] != "inv" {
@@ -153,6 +166,7 @@ type hist struct {
 	lat     int
 	tries   map[string]int
 	ierrMsg string
+	subAt   time.Time // when the telemetry subscription request was seen
 	// ending: the harness has begun to cancel the extension's context.  An exit-error report made after that
 	// point tells how the manager copes with being cancelled (e.g. while it still reads the SHUTDOWN answer),
 	// which the property does not speak about and which depends on timing: it is not part of the history.
@@ -236,7 +250,9 @@ func freePort() int {
 const (
 	nextDeadline  = 30 * time.Second
 	startDeadline = 20 * time.Second
-	quietFor      = 8 * time.Second
+	// well inside the manager's 100 ms start-up window (internal/awslambda/extension/manager.go)
+	earlyBound = 40 * time.Millisecond
+	quietFor   = 8 * time.Second
 )
 
 var errPortClash = fmt.Errorf("port clash")
@@ -331,6 +347,9 @@ func runHistory(c *caseT) (string, error) {
 	})
 	mux.HandleFunc("/2022-07-01/telemetry", func(w http.ResponseWriter, r *http.Request) {
 		_, _ = io.Copy(io.Discard, r.Body)
+		h.mu.Lock()
+		h.subAt = time.Now()
+		h.mu.Unlock()
 		h.add("sub")
 		w.WriteHeader(http.StatusOK)
 		_, _ = w.Write([]byte(`"OK"`))
@@ -513,9 +532,11 @@ func runHistory(c *caseT) (string, error) {
 		return postTelemetry(recs)
 	}
 	nextID := 1
-	sendDP := func() bool {
+	// sendDPTok posts one datapoint; tok(now) names the log token for its acknowledgement
+	var sendDPTok func(tok func() string) bool
+	sendDP := func() bool { return sendDPTok(func() string { return "A" }) }
+	sendDPTok = func(tok func() string) bool {
 		id := nextID
-		nextID++
 		tagsKey, tags := "", []string(nil)
 		if dyn {
 			tags = []string{"svc:" + string(rune('a'+id%2))}
@@ -532,8 +553,35 @@ func runHistory(c *caseT) (string, error) {
 		if resp.StatusCode != http.StatusAccepted {
 			return false
 		}
-		h.add("A" + strconv.Itoa(id))
+		nextID++
+		h.add(tok() + strconv.Itoa(id))
 		return true
+	}
+
+	// start-up datapoints: the manager starts its 100 ms start-up window only after the subscription request
+	// has been answered, and the heartbeat (initial flush) only after the window.  An acknowledgement that arrives
+	// less than earlyBound after the subscription request was *seen* therefore precedes the initial flush for
+	// certain (`E`); a later one (slow machine, server not yet listening) claims nothing (`A`).
+	if c.early > 0 {
+		var subAt time.Time
+		for t0 := time.Now(); time.Since(t0) < startDeadline && subAt.IsZero(); time.Sleep(200 * time.Microsecond) {
+			h.mu.Lock()
+			subAt = h.subAt
+			h.mu.Unlock()
+		}
+		sent := 0
+		for t0 := time.Now(); sent < c.early && time.Since(t0) < 2*time.Second; {
+			if sendDPTok(func() string {
+				if !subAt.IsZero() && time.Since(subAt) < earlyBound {
+					return "E"
+				}
+				return "A"
+			}) {
+				sent++
+			} else {
+				time.Sleep(300 * time.Microsecond)
+			}
+		}
 	}
 
 	cur := waitNext() // /next number 1
@@ -710,6 +758,9 @@ func gen(args []string) {
 	for i := 0; i < n; i++ {
 		c := &caseT{initOK: !r.Chance(1, 8)}
 		c.failKind = hx.Pick(r, []string{"fail", "failD", "failC", "failP", "failN"})
+		if c.initOK && r.Chance(1, 5) {
+			c.early = r.Range(1, 2)
+		}
 		ninv := r.Range(0, maxInv)
 		if r.Chance(1, 3) {
 			ninv = r.Range(1, 3)
@@ -760,6 +811,9 @@ func gen(args []string) {
 			}
 		}
 		st.Case(line, c.initOK && nontrivial)
+		if c.early > 0 {
+			st.Hit("start-up-datapoints")
+		}
 		if !c.initOK {
 			st.Hit("init=" + c.failKind)
 		} else {
